@@ -6,7 +6,7 @@ import numpy as np
 from vlib import core, dom, rescorr
 
 ID = "C01"
-PROPS = ["C01_maxprinciple.v", "C01_relaxation.v", "C01_matrix.v", "C04_step_system.v", "C04_acceptance.v"]
+PROPS = ["C01_maxprinciple.v", "C01_relaxation.v", "C01_matrix.v", "C04_step_system.v", "C04_acceptance.v", "C04_time_loop.v", "C04_end_to_end.v", "C01_source_loop.v"]
 GEN = ["reservoir"]
 TOL = 1e-9
 
